@@ -3,6 +3,8 @@
 from ..gen import opgen, rulebreak, schemair as S
 from ..mon import exec_mon
 
+THOROUGH_SCALE = 8.0   # 16 shards; see DESIGN.md section 7
+
 RULE = (
     "valid-by-construction documents (G-OP) over generated schemas must validate; for each, labelled "
     "single-rule violations (27 operators covering the 26 specified rules, applied at a random "
